@@ -1,5 +1,6 @@
 mod cbrun;
 mod config;
+mod csvrun;
 mod dec;
 mod fifo;
 mod gen;
@@ -65,6 +66,13 @@ fn main() {
             let bin = std::path::PathBuf::from(args.req("bin"));
             let work = std::path::PathBuf::from(args.req("work"));
             cbrun::run(&mut run, &bin, &work, args.get("in"), args.num("seed", 1), args.num("n", 50));
+            run.finish();
+        }
+        "csvrun" => {
+            let mut run = Runner::new(&args);
+            let bindir = std::path::PathBuf::from(args.req("bindir"));
+            let work = std::path::PathBuf::from(args.req("work"));
+            csvrun::run(&mut run, &bindir, &work, args.num("seed", 1), args.num("n", 20), args.get("tier") != Some("thorough"));
             run.finish();
         }
         "config" => {
